@@ -60,6 +60,82 @@ thread_local! {
     static OVERFLOWED: Cell<bool> = const { Cell::new(false) };
 }
 
+/// Optional address re-use (`set_reuse`): a freed block goes onto a LIFO list of its size class and is handed out
+/// again to the next request of that size, so that "a new object lands on a dead object's address" -- which real
+/// allocators do all the time -- is something a run can reach, reproducibly. Off by default: addresses are then
+/// never re-used inside a run.
+const SMALL_CLASSES: usize = 257; // sizes up to 4096 bytes in 16-byte steps
+const LARGE_SLOTS: usize = 128;
+struct FreeLists {
+    small: [usize; SMALL_CLASSES],
+    large: [(usize, usize); LARGE_SLOTS],
+    nlarge: usize,
+}
+thread_local! {
+    static FREE: std::cell::UnsafeCell<FreeLists> = const { std::cell::UnsafeCell::new(FreeLists { small: [0; SMALL_CLASSES], large: [(0, 0); LARGE_SLOTS], nlarge: 0 }) };
+    static REUSE: Cell<bool> = const { Cell::new(false) };
+}
+
+/// switch address re-use on or off for the arena armed on this thread (forgets every freed block)
+pub fn set_reuse(on: bool) {
+    REUSE.set(on);
+    FREE.with(|f| unsafe {
+        let f = &mut *f.get();
+        f.small = [0; SMALL_CLASSES];
+        f.nlarge = 0;
+    });
+}
+
+#[inline]
+unsafe fn take_free(layout: Layout) -> usize {
+    if layout.align() > 16 {
+        return 0;
+    }
+    let rounded = (layout.size().max(1) + 15) & !15;
+    FREE.with(|f| {
+        let f = &mut *f.get();
+        let c = rounded / 16;
+        if c < SMALL_CLASSES {
+            let head = f.small[c];
+            if head != 0 {
+                f.small[c] = *(head as *const usize);
+            }
+            head
+        } else {
+            let mut i = f.nlarge;
+            while i > 0 {
+                i -= 1;
+                if f.large[i].1 == rounded {
+                    let a = f.large[i].0;
+                    f.large.copy_within(i + 1..f.nlarge, i);
+                    f.nlarge -= 1;
+                    return a;
+                }
+            }
+            0
+        }
+    })
+}
+
+#[inline]
+unsafe fn put_free(ptr: usize, layout: Layout) {
+    if layout.align() > 16 {
+        return;
+    }
+    let rounded = (layout.size().max(1) + 15) & !15;
+    FREE.with(|f| {
+        let f = &mut *f.get();
+        let c = rounded / 16;
+        if c < SMALL_CLASSES {
+            *(ptr as *mut usize) = f.small[c];
+            f.small[c] = ptr;
+        } else if f.nlarge < LARGE_SLOTS {
+            f.large[f.nlarge] = (ptr, rounded);
+            f.nlarge += 1;
+        }
+    })
+}
+
 static BUSY: [AtomicU64; (NUM_SLOTS + NUM_BIG_SLOTS) / 64] = [const { AtomicU64::new(0) }; (NUM_SLOTS + NUM_BIG_SLOTS) / 64];
 static MAPPED: [AtomicBool; NUM_SLOTS + NUM_BIG_SLOTS] = [const { AtomicBool::new(false) }; NUM_SLOTS + NUM_BIG_SLOTS];
 
@@ -74,6 +150,16 @@ unsafe impl GlobalAlloc for SimAlloc {
         let mut st = ARENA.get();
         if st.cur == 0 || st.system_depth > 0 {
             return System.alloc(layout);
+        }
+        if REUSE.get() {
+            let p = take_free(layout);
+            if p != 0 {
+                // (not the bump frontier: must never be extended in place)
+                st.last = 0;
+                st.allocs += 1;
+                ARENA.set(st);
+                return p as *mut u8;
+            }
         }
         let align = layout.align().max(16);
         let mut start = (st.cur + align - 1) & !(align - 1);
@@ -118,6 +204,16 @@ unsafe impl GlobalAlloc for SimAlloc {
     #[inline]
     unsafe fn dealloc(&self, ptr: *mut u8, layout: Layout) {
         if in_arena(ptr as usize) {
+            if REUSE.get() {
+                let mut st = ARENA.get();
+                if st.cur != 0 && st.system_depth == 0 {
+                    if st.last == ptr as usize {
+                        st.last = 0;
+                        ARENA.set(st);
+                    }
+                    put_free(ptr as usize, layout);
+                }
+            }
             return;
         }
         System.dealloc(ptr, layout)
@@ -148,6 +244,9 @@ unsafe impl GlobalAlloc for SimAlloc {
         let new = self.alloc(Layout::from_size_align_unchecked(new_size, layout.align()));
         if !new.is_null() {
             std::ptr::copy_nonoverlapping(ptr, new, layout.size().min(new_size));
+            if REUSE.get() {
+                self.dealloc(ptr, layout);
+            }
         }
         new
     }
@@ -216,6 +315,7 @@ pub fn arm_sized(slot: usize, big: bool, offset: usize, pad_every: u32, pad_byte
     assert!(ARENA.get().cur == 0, "arena already armed on this thread");
     let base = claim(slot, big);
     let len = slot_geometry(slot, big).1;
+    set_reuse(false);
     ARENA.set(ArenaState {
         cur: base + 64 + (offset & !15),
         end: base + len,
@@ -277,6 +377,7 @@ pub fn detach_sized(slot: usize, big: bool) -> Detached {
         may_overflow: false,
     });
     OVERFLOWED.set(false);
+    set_reuse(false);
     Detached { st, slot, big }
 }
 
